@@ -1520,6 +1520,13 @@ class TLSConnection(TLSRecordLayer):
                 delegated_credential = cert_ext.delegated_credential
                 publicKey = delegated_credential.cred.pub_key
                 signature_scheme = delegated_credential.cred.dc_cert_verify_algorithm
+            elif signature_scheme not in self._sigHashesToList(
+                    settings, certList=serverCertChain, version=(3, 4)):
+                for result in self._sendError(
+                        AlertDescription.illegal_parameter,
+                        "Server selected signature algorithm that does not "
+                        "match its certificate"):
+                    yield result
 
             if signature_scheme in (SignatureScheme.ed25519,
                                     SignatureScheme.ed448,
